@@ -156,6 +156,10 @@ bool Instance::parse_pretend_valid_expr(const char* expr) {
                 return false;
             }
             got_sig = false;
+            if (pretend_valid_map.count(sig) && pretend_valid_map.at(sig) != s) {
+                fprintf(stderr, "parse error (signature already paired with a different pubkey) near %s\n", p);
+                return false;
+            }
             // v.do_hash160();
             // keyid = uint160(v.data_value());
             pretend_valid_map[sig] = s;
